@@ -74,3 +74,429 @@ def to_coq(case, r):
     pls = [cpair(cN(p["p"]), cnat(pmax(p.get("max")))) for p in all_pledges(case)]
     evs = [c_ev(e) for e in r["events"]]
     return cpair(cpair(clist(ms), clist(pls)), clist(evs))
+
+
+# --------------------------------------------------------------------------- generator
+ST_H, ST_S, ST_D, ST_L = 0, 1, 2, 3
+
+
+def active_addrs(v):
+    return [e[2] for e in canon_view(v) if e[1] != ST_L]
+
+
+def qsize(v):
+    return len(active_addrs(v)) // 2 + 1
+
+
+def compat(v1, v2):
+    """the guard of C11_unique_partial (compatb in Aspen/PledgeQuorum.v)"""
+    return len(set(active_addrs(v1)) | set(active_addrs(v2))) < qsize(v1) + qsize(v2)
+
+
+def all_views(case):
+    vs = [m["view"] for m in case["members"]]
+    for o in case["ops"]:
+        if o["op"] == "gossip":
+            vs.append(o["view"])
+        elif o["op"] == "par":
+            for p in o["pledges"]:
+                for a in p["attempts"]:
+                    for r in a.get("rounds", []):
+                        for g in r.get("gossip", []):
+                            vs.append(g["view"])
+    return vs
+
+
+def guard_ok(case):
+    """every pair of views a coordinator may ever snapshot satisfies the intersection guard; only decidable
+    before the run when no view has symbolic entries"""
+    if any(e[0] == 0 for v in all_views(case) for e in v):
+        return False
+    vs = [v for v in all_views(case) if active_addrs(v)]
+    return all(compat(a, b) for i, a in enumerate(vs) for b in vs[i:])
+
+
+def mk_view(rng, members, joined, stale, statey, symbolic=True):
+    """a view over the member addresses (key = addr) plus pledging nodes: under the symbolic key 0 (resolved by
+    the harness to the key the node was handed; dropped while it has none) or, when the view must be known
+    statically (guarded batch), under the key it would get if keys were handed out in order"""
+    v = []
+    ms = list(members)
+    drop = set()
+    if stale and len(ms) > 1:
+        k = rng.choice([1, 1, 1, 2, 2, 3]) if stale > 1 else 1
+        # stale views lose the most recently added (highest) members most of the time
+        cand = sorted(ms, reverse=True)
+        for _ in range(min(k, len(ms) - 1)):
+            x = cand[0] if rng.random() < 0.7 else rng.choice(cand)
+            drop.add(x)
+            cand.remove(x)
+    for a in ms:
+        if a in drop:
+            continue
+        st = ST_H
+        if statey and rng.random() < statey:
+            st = rng.choice([ST_S, ST_D, ST_L, ST_S])
+        v.append([a, st, a])
+    for p in joined:
+        if rng.random() < 0.7:
+            v.append([0 if symbolic else max(members) + (p - 100), ST_H, p])
+    return v
+
+
+def mk_round(rng, members, joined, stale, symbolic=True):
+    r = {}
+    x = rng.random()
+    if x < 0.62:
+        r["def"] = "D"
+    elif x < 0.97:
+        r["def"] = rng.choice(["F", "F", "C", "R", "R", "L", "L"])
+    else:
+        r["def"] = "T"
+    if rng.random() < 0.55:
+        by = {}
+        for _ in range(rng.choice([1, 1, 2, 3])):
+            j = rng.choice(list(members) + list(joined)[:1])
+            by[str(j)] = rng.choice(["D", "D", "F", "F", "C", "R", "L", "L"] + (["T"] if rng.random() < 0.05 else []))
+        r["by"] = by
+    if rng.random() < 0.15:
+        m = rng.choice(list(members) + list(joined))
+        r["gossip"] = [{"m": m, "view": mk_view(rng, members, joined, stale if rng.random() < 0.5 else 0, 0.1, symbolic)}]
+    if rng.random() < 0.12:
+        r["flush"] = True
+    return r
+
+
+def gen_case(rng, guarded=True):
+    n = rng.choice([1, 2, 3, 3, 3, 4, 4, 5, 5, 6, 7])
+    members = list(range(1, n + 1))
+    if rng.random() < 0.1:
+        members = sorted(rng.sample(range(1, 12), n))
+    stale = 0 if rng.random() < 0.25 else (1 if guarded else 2)
+    statey = rng.choice([0, 0, 0.1, 0.2, 0.35])
+    ck = rng.choice([7, 7, 7, 1, 4000000000])
+    ms = []
+    for a in members:
+        st = stale if rng.random() < 0.5 else 0
+        ms.append({"addr": a, "ck": ck if rng.random() < 0.97 else ck + 1,
+                   "max": rng.choice([1, 2, 3, 3, 4, 4, 6, 10]),
+                   "view": mk_view(rng, members, [], st, statey)})
+    ops = []
+    joined = []
+    nextp = 101
+    for _ in range(rng.choice([1, 2, 2, 3, 3, 4, 5])):
+        x = rng.random()
+        if x < 0.78 or not ops:
+            k = 1 if rng.random() < 0.6 else rng.choice([2, 2, 3, 4])
+            pls = []
+            for _ in range(k):
+                p = nextp
+                nextp += 1
+                atts = []
+                for _ in range(rng.choice([1, 1, 1, 2, 2, 3])):
+                    y = rng.random()
+                    if y < 0.8:
+                        via = rng.choice(members)
+                    elif y < 0.93 and joined:
+                        via = rng.choice(joined)
+                    else:
+                        via = rng.choice([99, nextp, p])      # nobody / not yet joined / itself
+                    how = "D" if rng.random() < 0.86 else rng.choice(["F", "R", "R"])
+                    rounds = [mk_round(rng, members, joined, stale, not guarded)
+                              for _ in range(rng.choice([0, 0, 1, 1, 2, 3, 4]))]
+                    atts.append({"via": via, "how": how, "rounds": rounds})
+                if rng.random() < 0.02:
+                    atts = []
+                pls.append({"p": p, "max": rng.choice([1, 2, 3, 4, 10]), "attempts": atts})
+                if rng.random() < 0.02:
+                    pls.append(json.loads(json.dumps(pls[-1])))     # duplicate pledge id (malformed)
+            ops.append({"op": "par", "pledges": pls})
+            joined += [pl["p"] for pl in pls]
+        elif x < 0.9:
+            m = rng.choice(members + joined)
+            ops.append({"op": "gossip", "m": m,
+                        "view": mk_view(rng, members, joined, stale if rng.random() < 0.4 else 0, statey,
+                                        not guarded)})
+        elif x < 0.95:
+            ops.append({"op": "flush"})
+        else:
+            ops.append({"op": "probe", "m": rng.choice(members + joined + [99]),
+                        "key": rng.choice([0, 1, n, n + 1, n + 2, n + 3, 4095])})
+    case = {"members": ms, "ops": ops, "rt_us": 2000}
+    if any(o["op"] == "par" and len(o["pledges"]) > 1 for o in ops):
+        case["jitter"] = rng.randrange(1, 1 << 30)
+    return case
+
+
+def gen_guarded(rng):
+    for _ in range(40):
+        c = gen_case(rng, True)
+        if guard_ok(c):
+            return c
+    # fall back: everybody shares one view
+    c = gen_case(rng, True)
+    base = [[m["addr"], ST_H, m["addr"]] for m in c["members"]]
+    for m in c["members"]:
+        m["view"] = base
+    for o in c["ops"]:
+        if o["op"] == "gossip":
+            o["view"] = base
+        if o["op"] == "par":
+            for p in o["pledges"]:
+                for a in p["attempts"]:
+                    for r in a.get("rounds", []):
+                        r.pop("gossip", None)
+    return c
+
+
+def gen_cases(rng, tier, n):
+    return [gen_guarded(rng) for _ in range(n)]
+
+
+# --------------------------------------------------------------------------- judging
+def harness_violation(case, r):
+    if r.get("panic"):
+        return "panic: " + r["panic"]
+    if r.get("hang"):
+        return "hang: the pledge scenario did not finish within 30 s"
+    return None
+
+
+def events(r, t):
+    return [e for e in r["events"] if e[0] == t]
+
+
+def nontrivial(case, r):
+    snaps = {}
+    for e in events(r, "SN"):
+        snaps.setdefault(e[1], set()).add(json.dumps(e[2]))
+    allsn = set()
+    for s in snaps.values():
+        allsn |= s
+    lost = [e for e in events(r, "RQ") if e[4] != 0]
+    okp = [e for e in events(r, "PE") if e[2]]
+    return len(snaps) >= 2 and len(allsn) >= 2 and len(lost) >= 1 and len(okp) >= 1
+
+
+HOW = {0: "delivered", 1: "not_delivered", 2: "response_lost", 3: "cancelled_ctx", 4: "delayed"}
+
+
+def histogram(case, r):
+    ks = ["members=%d" % len(case["members"])]
+    npl = len(all_pledges(case))
+    ks.append("pledges=%d" % npl)
+    for o in case["ops"]:
+        ks.append("op=" + o["op"] + ("%d" % len(o["pledges"]) if o["op"] == "par" else ""))
+    for e in events(r, "RQ"):
+        ks.append("req=" + HOW[e[4]])
+        if e[4] in (0, 2):
+            ks.append("verdict=" + VERD[e[5]])
+    for e in events(r, "LT"):
+        ks.append("late=" + VERD[e[4]])
+    for e in events(r, "RE"):
+        ks.append("run_end=%s%s" % ({0: "ok", 1: "failed", 2: "unreachable", 3: "failed", 4: "failed"}[e[4]],
+                                    "_lost" if e[5] else ""))
+    for e in events(r, "PE"):
+        ks.append("pledge=" + ("joined" if e[2] else "gave_up"))
+    rounds = {}
+    for e in events(r, "SN"):
+        rounds[e[1]] = rounds.get(e[1], 0) + 1
+    for v in rounds.values():
+        ks.append("rounds=%d" % min(v, 6))
+    if len(set(json.dumps(canon_view(v)) for v in all_views(case))) > 1:
+        ks.append("differing_views")
+    if not guard_ok(case):
+        ks.append("outside_intersection_guard")
+    return ks
+
+
+_kinds_cache = {}
+
+
+def kinds_of(terms):
+    """viol_kinds of each case term, evaluated by Coq in one call"""
+    out = coq_print(PID, COQ_IMPORTS, "Definition ks := Eval vm_compute in map viol_kinds [ %s ].\nPrint ks." %
+                    "\n ; ".join(terms), timeout=900)
+    m = re.search(r"ks\s*=\s*(\[.*?\])\s*:", out.replace("\n", " "))
+    if not m:
+        raise RuntimeError("cannot parse viol_kinds output: %s" % out[-800:])
+    body = m.group(1).strip()[1:-1]
+    res, depth, cur = [], 0, ""
+    for ch in body:
+        if ch == "[":
+            depth += 1
+            cur = ""
+        elif ch == "]":
+            depth -= 1
+            res.append([int(x.replace("%N", "").strip()) for x in cur.split(";") if x.strip()])
+        elif depth:
+            cur += ch
+    if len(res) != len(terms):
+        raise RuntimeError("viol_kinds: %d results for %d cases" % (len(res), len(terms)))
+    return res
+
+
+def tags(case, r):
+    if r is None or "events" not in r:
+        return set()
+    t = to_coq(case, r)
+    if t not in _kinds_cache:
+        _kinds_cache[t] = kinds_of([t])[0]
+    ks = set(_kinds_cache[t])
+    # exactly the finding: two pledges handed the same key by runs whose approving quorums are
+    # disjoint, and nothing else wrong
+    if ks == {4}:
+        return {KNOWN_TAG}
+    return set()
+
+
+def neighbours(case, rng):
+    out = []
+    for i in range(len(case["ops"])):
+        c = json.loads(json.dumps(case))
+        del c["ops"][i]
+        out.append(c)
+    # make every scripted decision a plain delivery / drop every gossip
+    c = json.loads(json.dumps(case))
+    for o in c["ops"]:
+        if o["op"] == "par":
+            for p in o["pledges"]:
+                for a in p["attempts"]:
+                    a["how"] = "D"
+                    a["rounds"] = []
+    out.append(c)
+    for _ in range(6):
+        c = json.loads(json.dumps(case))
+        c["ops"].append({"op": "par", "pledges": [{"p": 190 + rng.randrange(9), "max": 4, "attempts": [
+            {"via": rng.choice([m["addr"] for m in case["members"]]), "how": "D", "rounds": []}]}]})
+        out.append(c)
+    return out
+
+
+def model_dump(case, r):
+    t = to_coq(case, r)
+    return coq_print(PID, COQ_IMPORTS, "Eval vm_compute in model_dump (%s)." % t)[-6000:]
+
+
+# --------------------------------------------------------------------------- fixed scenarios
+def f6_case():
+    """DESIGN §9 F6 / Coq witness w_ms, w_tr (Aspen/PledgeWitness.v): seven members, member 3 only knows
+    {1,2,3}. Node states are chosen so that both quorums are forced ({4,5,6,7} minus nothing / {2,3})."""
+    full = [[k, 0, k] for k in range(1, 8)]
+    v1 = [[1, 0, 1], [2, 1, 2], [3, 1, 3]] + [[k, 0, k] for k in range(4, 8)]
+    v3 = [[1, 1, 1], [2, 0, 2], [3, 0, 3]]
+    view = lambda a: v1 if a == 1 else v3 if a == 3 else full  # noqa: E731
+    return {"members": [{"addr": a, "ck": 7, "max": 10, "view": view(a)} for a in range(1, 8)],
+            "ops": [{"op": "par", "pledges": [{"p": 101, "max": 3, "attempts": [{"via": 1, "how": "D", "rounds": []}]}]},
+                    {"op": "par", "pledges": [{"p": 102, "max": 3, "attempts": [{"via": 3, "how": "D", "rounds": []}]}]}],
+            "rt_us": 2000}
+
+
+def small_stale_case():
+    """the smallest instance: member 1 never learnt of 2 and 3; quorum {1} of {1} vs quorum {2,3} of {1,2,3}"""
+    full = [[1, 1, 1], [2, 0, 2], [3, 0, 3]]
+    return {"members": [{"addr": 1, "ck": 7, "max": 10, "view": [[1, 0, 1]]},
+                        {"addr": 2, "ck": 7, "max": 10, "view": full},
+                        {"addr": 3, "ck": 7, "max": 10, "view": full}],
+            "ops": [{"op": "par", "pledges": [{"p": 101, "max": 3, "attempts": [{"via": 2, "how": "D", "rounds": []}]}]},
+                    {"op": "par", "pledges": [{"p": 102, "max": 3, "attempts": [{"via": 1, "how": "D", "rounds": []}]}]},
+                    {"op": "par", "pledges": [{"p": 103, "max": 3, "attempts": [{"via": 1, "how": "D", "rounds": []}]}]},
+                    {"op": "par", "pledges": [{"p": 104, "max": 3, "attempts": [{"via": 1, "how": "D", "rounds": []}]}]}],
+            "rt_us": 2000}
+
+
+EXTRA_COUNTS = {"quick": 150, "thorough": 4000}
+
+
+def extra(ctx):
+    """Second phase: scripts OUTSIDE the intersection guard (arbitrarily stale views, joined nodes with empty
+    views and memories acting as jurors). Every case is judged on its own: same exact trace acceptance; a monitor
+    rejection must carry exactly the signature of the known finding, anything else is a violation."""
+    import random
+    import check
+    rng = random.Random(ctx.seed * 104729 + 11)
+    cases = [f6_case(), small_stale_case()] + [gen_case(rng, False) for _ in range(EXTRA_COUNTS.get(ctx.tier, 150))]
+    cases = [json.loads(json.dumps(c)) for c in cases]
+    res, M, V, hv, errs = ctx.evaluate(cases)
+    cov = {"cases": len(cases), "mismatches": len(M), "monitor_rejections": len(V),
+           "f6_witness_reproduced_on_real_code": 0 in V, "small_witness_reproduced_on_real_code": 1 in V}
+    if errs:
+        rp = check.write_replay(ctx, "V2", "stale-view batch could not be evaluated", {}, None, {"errors": errs[:10]})
+        ctx.violations.append({"kind": "V2", "what": "evaluation errors: %s" % errs[0][:300], "replay": rp,
+                               "found_input": False})
+    for i, w in hv[:5]:
+        check.report_case_violation(ctx, cases[i], res.get(i), w)
+    if V:
+        terms = [to_coq(cases[i], res[i]) for i in V]
+        for t, ks in zip(terms, kinds_of(terms)):
+            _kinds_cache[t] = ks
+    before = len(ctx.violations)
+    for i in V:
+        if len(ctx.violations) - before >= 3:
+            break
+        check.report_case_violation(ctx, cases[i], res.get(i),
+                                    "monitor ok_%s rejects the implementation's behaviour (stale-view batch)" % PID)
+    if M:
+        i = M[0]
+        try:
+            md = model_dump(cases[i], res.get(i))
+        except Exception as ex:  # noqa
+            md = repr(ex)
+        rp = check.write_replay(ctx, "V2", "model and implementation disagree (stale-view batch)", cases[i], res.get(i),
+                                {"correspondence": "corr:%s/stale#%d" % (PID, i), "model": md,
+                                 "mismatching_cases": len(M)})
+        ctx.violations.append({"kind": "V2", "what": "correspondence corr:%s broke on %d stale-view cases" % (PID, len(M)),
+                               "replay": rp, "found_input": False})
+    if 0 not in V:
+        ctx.notes.append("the F6 witness (Aspen/PledgeWitness.v w_tr) did NOT hand out a duplicate key on this tree")
+    nt = sum(1 for i, c in enumerate(cases) if res.get(i) and nontrivial(c, res[i]))
+    cov["nontrivial"] = nt
+    ctx.extra_cov["stale_view_batch"] = cov
+
+
+RULE = ("main batch: clusters of 1-7 arbitrating members with per-member candidate views (equal, or one member behind, "
+        "with Suspect/Dead/Left states) that pairwise satisfy the quorum-intersection guard; 1-5 ops of par(1-4 "
+        "concurrent pledges, each 1-3 attempts through members / joined nodes / nobody, each run scripted per round: "
+        "default + per-juror decision deliver|fail|cancelled-ctx|response-lost|timeout|late, mid-run view changes, "
+        "late-message flushes) | gossip | flush | probe. Malformed share: duplicate pledge ids, no attempts, pledges "
+        "through themselves / unknown addresses, MaxProposals 1, probes of key 0/4095. A second batch (extra phase) "
+        "drops the guard: views up to 3 members behind and joined nodes entering views under the key they were handed. "
+        "Non-trivial = >=2 runs, >=2 different candidate snapshots, >=1 juror request that was not plainly "
+        "delivered, >=1 pledge handed a key; distinct by hash.")
+TRUSTED = ["hook aspen/internal/cluster/pledge/export_verif.go (exports the two sentinel errors, add-only)",
+           "harness transport wrapper: decides delivery of each juror request, linearises deliveries, view changes and "
+           "Candidates() calls under one mutex, attributes Candidates() calls to runs by goroutine id",
+           "pledge.Pledge / pledge.Arbitrate / responsible / juror and the freighter mock network run for real"]
+ASSUMES = ["node keys stay below 2^12 (Go uint16/Uint12 wrap-around of highest+1 not modelled)",
+           "within one view, addresses are distinct (one entry per physical node)",
+           "juror memory is never reset: node restarts (a new juror with empty approvals on an old address) are "
+           "outside the modelled events",
+           "the pledge-side RequestTimeout never expires inside a run (10 s in the harness)"]
+PARTIAL = ("uniqueness is proved only under the quorum-intersection guard (C11_unique_partial / "
+           "C11_joiner_keys_unique_partial); without it the statement is refuted in the model and on the real code "
+           "(C11_unique_refuted, known finding F6 disjoint_quorums_from_stale_view). Real timeouts are replaced by "
+           "scripted events (a timed-out juror request is withheld until the responsible's context ends); the "
+           "jitter / scaled ticker of pledge.Pledge and TCP transports are not modelled.")
+READY = True
+TECHNIQUE = ("Coq proof (inductive invariant over every event sequence of a labelled transition system: juror memory, "
+             "full-quorum approval, quorum intersection by pigeonhole) + trace acceptance of the real code's event log "
+             "by the model inside Coq (vm_compute) + decidable monitor on the log")
+DESIGN_REF = "DESIGN.md §8 C11, §9 F6"
+LEVEL_TEXT = ("Machine-checked Coq theorems over an executable LTS copy of responsible.propose / buildQuorum / "
+              "consultQuorum / juror.verdict / Pledge: for every event sequence (all interleavings of concurrent "
+              "pledges through any members with any, changing, stale views; every juror request delivered, lost, "
+              "answered-but-lost, cancelled or late; all retries) a key is decided only with the approval of every "
+              "member of a majority quorum of the coordinator's snapshot (C11_admit_needs_full_quorum, "
+              "C11_joiner_key_needs_full_quorum), the joiner receives the coordinator's cluster key (C11_cluster_key), "
+              "a juror never approves a key twice (C11_juror_memory), and decided keys are pairwise different whenever "
+              "the deciding quorums intersect (C11_unique_under_intersection), which equal and one-behind snapshots "
+              "guarantee (C11_quorum_intersection_*). The real pledge package is driven on every run through a "
+              "fault-injecting transport; its linearised event log must be accepted event by event by the model "
+              "(verdicts, proposed keys, quorum sizes and membership, responses) and is judged by a monitor stating the "
+              "property.")
+LEVEL_NOTE = ("PARTIAL: the unrestricted uniqueness statement is FALSE for the code as it is — with a coordinator whose "
+              "view is stale by two or more members two majority quorums can be disjoint and both pledges are handed "
+              "the same key; reproduced on the real package on every run (F6, known finding), refuted in Coq "
+              "(C11_unique_refuted), proved under the intersection guard (C11_unique_partial). Real timeouts, ticker "
+              "jitter and node restarts are not modelled. Trusted: Coq kernel/vm_compute; hand-written model tied by "
+              "trace acceptance, not translation; harness wrapper and generator. No axioms.")
